@@ -3,16 +3,18 @@
 # run.sh replay <file>             re-execute a recorded violation in a fresh process
 cd "$(dirname "$0")"
 export GOFLAGS=-mod=mod GOPROXY=off GOSUMDB=off GOTOOLCHAIN=local
+export VERIF_DIR="${VERIF_DIR:-$(pwd)}"
 if [ ! -x .work/vmc ] || [ -n "$(find vmc -newer .work/vmc -name '*.go' -not -path 'vmc/_src/*' 2>/dev/null | head -1)" ]; then
   mkdir -p .work && (cd vmc && go build -o ../.work/vmc ./super) || exit 2
 fi
 case "$1" in
   replay) exec ./.work/vmc replay "$2" ;;
   C*) ./.work/vmc check "$1" "${2:-quick}"; rc=$?
-      if [ -x "$(command -v python3-vt)" ] && [ -f "evidence/$1.json" ]; then
-        python3-vt - "$1" <<'PY' || rc=2
+      ev="${VERIF_EVIDENCE_DIR:-$VERIF_DIR/evidence}/$1.json"
+      if [ -x "$(command -v python3-vt)" ] && [ -f "$ev" ]; then
+        python3-vt - "$ev" <<'PY' || rc=2
 import json,sys,jsonschema
-ev=json.load(open(f"/verif/evidence/{sys.argv[1]}.json"))
+ev=json.load(open(sys.argv[1]))
 jsonschema.validate(ev,json.load(open("/root/.vp/EVIDENCE.schema.json")))
 PY
       fi
